@@ -140,13 +140,15 @@ fn convert_dockerignore_pattern(
 }
 
 static DOCKER_CONVERT_REPLACE_REGEX: LazyLock<Regex> = LazyLock::new(|| {
-    Regex::new("(\\*\\*|\\?|\\.|\\*)").unwrap()
+    Regex::new("(\\*\\*/|\\*\\*|\\?|\\.|\\*)").unwrap()
 });
 
 fn convert_dockerignore_glob(glob: &str, file_path: &Path) -> Result<Regex, Error> {
     let mut pattern = DOCKER_CONVERT_REPLACE_REGEX
         .replace_all(glob, |c: &Captures| {
             match c.index(0) {
+                // `**/` also stands for no directory at all
+                "**/" => "(.*/)?",
                 "**" => ".*",
                 "." => "\\.",
                 "*" => "[^/]*",
